@@ -361,23 +361,42 @@ def merge_details(P, R, rule='C15.MPT.6'):
             plain = c['v']
     al = [t for t in sv.stores() if t.ev['k'] == 'store' and is_field(t.ev.get('lhs'), 'p_string') and is_field(t.ev.get('rhs') or {}, 'value')]
     if al and plain is not None:
+        # state: (on the plain-text arm?, remembered text fresh?, known constant values of locals - so that "the helper
+        # said plain" (a folded helper returning a code) selects the arm the same way a case label does)
         def on_edge(st, e):
+            arm, fresh, consts = st
             if e.label == 'case' and e.cond is not None and is_field(e.cond, 'subtype'):
-                return (plain in (e.vs or []), st[1])
+                return (plain in (e.vs or []), fresh, consts)
             if e.label == 'default' and e.cond is not None and is_field(e.cond, 'subtype'):
-                return (True, st[1])
+                return (True, fresh, consts)
+            r = rules.edge_rel(e)
+            if r and is_var(r[0]) and isinstance(const_of(r[2]), int) and r[0]['name'] in dict(consts):
+                v, c = dict(consts)[r[0]['name']], const_of(r[2])
+                if not {'==': v == c, '!=': v != c, '<': v < c, '<=': v <= c, '>': v > c, '>=': v >= c}.get(r[1], True):
+                    return None
             return st
 
         def on_event(st, t):
+            arm, fresh, consts = st
             ev = t.ev
             if ev['k'] == 'store' and is_field(ev.get('lhs'), 'p_string'):
-                return (st[0], is_field(ev.get('rhs') or {}, 'value') or const_of(ev.get('rhs')) == 0)
+                return (arm, is_field(ev.get('rhs') or {}, 'value') or const_of(ev.get('rhs')) == 0, consts)
             if ev['k'] == 'store' and is_field(ev.get('lhs'), 'value'):
-                return (st[0], False)
+                return (arm, False, consts)
             if ev['k'] == 'call' and ev.get('callee') == 'memset' and ev['args'] and any(y.get('k') == 'mem' and y.get('field') == 'parsed' for y in walk(ev['args'][0])):
-                return (st[0], True)
+                return (arm, True, consts)
+            if ev['k'] == 'store' and is_var(ev.get('lhs')) and ev['lhs'].get('sc') == 'local':
+                d = dict(consts)
+                d.pop(ev['lhs']['name'], None)
+                rhs = ev.get('rhs')
+                if ev.get('op') == '=' and isinstance(const_of(rhs), int):
+                    d[ev['lhs']['name']] = const_of(rhs)
+                elif ev.get('op') == '=' and is_var(rhs) and rhs['name'] in dict(consts):
+                    d[ev['lhs']['name']] = dict(consts)[rhs['name']]
+                return (arm, fresh, tuple(sorted(d.items())))
             return st
-        _, at_exit, _, _ = sv.forward((False, False), on_event, on_edge)
+        _, at_exit3, _, _ = sv.forward((False, False, ()), on_event, on_edge)
+        at_exit = {(x[0], x[1]) for x in at_exit3}
         n += 1
         R.ob(rule, bool(at_exit) and all(fresh for arm, fresh in at_exit if arm), al[0], 'on the plain-text arm the remembered text is re-pointed at the node\'s current text on every path to the return', key='alias-refresh')
     R.floor(rule, 5, 'flag raises, parent link, pair comparisons, alias refresh')
